@@ -528,6 +528,11 @@ for k, tier in ((2, "quick"), (3, "thorough")):
 H(prop="C07", name="c07_indent_at_offset_n8", crate="core-h", module="c07_indent",
   decides="get_indent_at_offset(prefix) == leading spaces of the last line of prefix",
   functions=["ast_grep_core::replacer::indent::get_indent_at_offset"], shape="STR", bounds="all prefixes <= 8 bytes over {' ',x,\\n} (below the 512-byte look-ahead window); unwind 10")
+H(prop="C07", name="c07_reindent_grid", crate="core-h", module="c07_indent", timeout=1800, mem_gb=20, tier="lab",
+  decides="indent_lines(to, extract_with_deindent(text, range)) == the block with every continuation line shifted from the column it was extracted at to the new column (first line untouched, relative indentation kept)",
+  functions=["ast_grep_core::replacer::indent::extract_with_deindent", "ast_grep_core::replacer::indent::indent_lines",
+             "ast_grep_core::replacer::indent::indent_lines_impl", "ast_grep_core::replacer::indent::remove_indent", "ast_grep_core::replacer::indent::get_indent_at_offset"],
+  shape="STR", bounds="the block ab / <from+1 spaces>c / <from spaces>d extracted at column `from`, re-inserted at column `to`; (from, to) in {0,1,2}^2: one symbolic index, case-split. NOTE: inside a case nothing is symbolic (real code executed by the model checker on nine concrete cases); symbolic contents run out of memory (c07_indent_shift2_*); not past its second case after 11 min; unwind 22")
 for _f, _t in ((0, 1), (0, 2), (1, 0), (1, 2), (2, 1)):
     H(prop="C07", name=f"c07_indent_shift2_{_f}_to_{_t}", crate="core-h", module="c07_indent", timeout=1800, mem_gb=20, tier="lab",
       decides="indent_lines(to, extract_with_deindent(text, range)) == the block with every continuation line shifted from the column it was extracted at to the new column (first line untouched)",
